@@ -108,7 +108,9 @@ def scripts(pa, pb, ptun, pclosed, auth):
                                                           ('send', b'GET /b/2' + tag + b' HTTP/1.1\r\nHost: front\r\nX-Tag: ' + tag + b'\r\n\r\n'), ('read',), ('close',)]))
     S.append(('static file 300 KiB', lambda tag: [('send', b'GET /big.bin?t=' + tag + b' HTTP/1.1\r\nHost: w\r\n\r\n'), ('read',), ('read',), ('close',)]))
     S.append(('static file small', lambda tag: [('send', b'GET /small.txt?t=' + tag + b' HTTP/1.1\r\nHost: w\r\n\r\n'), ('read',), ('read',), ('close',)]))
-    S.append(('half-close after request', lambda tag: [('send', fwd(b'GET', pb, b'/h')(tag)), ('shut',), ('read',), ('read',), ('close',)]))
+    # (no "half-close right after the request" conversation: whether the answer or the client's FIN reaches the proxy first is
+    #  a race between the client and the origin in every mode - see F20a - and under load it falls differently per run)
+    S.append(('half-close after the response', lambda tag: [('send', fwd(b'GET', pb, b'/h')(tag)), ('read',), ('shut',), ('read',), ('close',)]))
     S.append(('truncated request then close', lambda tag: [('send', fwd(b'POST', pa, b'/t', b'0123456789')(tag)[:-4]), ('sleep', 0.2), ('close',)]))
     if auth:
         S.append(('no credentials', lambda tag: [('send', b'GET http://' + H(pa) + b'/n?t=' + tag + b' HTTP/1.1\r\nHost: x\r\n\r\n'), ('read',), ('read',), ('close',)]))
@@ -164,6 +166,14 @@ def run_mode(mode, nacc, nwork, auth, origins, plan, out):
         out[mode] = ('error', repr(e))
     finally:
         px.stop()
+
+
+def mask_gzip_mtime(raw):
+    """The gzip member header carries the wall-clock second of compression (MTIME, bytes 4..7): not behaviour, masked."""
+    head, sep, body = raw.partition(b'\r\n\r\n')
+    if sep and b'content-encoding: gzip' in head.lower() and body[:2] == b'\x1f\x8b' and len(body) >= 8:
+        return head + sep + body[:4] + b'\0\0\0\0' + body[8:]
+    return raw
 
 
 def big_origin(label):
@@ -275,7 +285,8 @@ def run(chk):
                 for name, tag in phase:
                     rec = {}
                     for m in ('threaded', 'local', 'remote'):
-                        r_ = out[m][1].get(tag, {'cgot': b'', 'ceof': False, 'events': ['missing']})
+                        r_ = dict(out[m][1].get(tag, {'cgot': b'', 'ceof': False, 'events': ['missing']}))
+                        r_['cgot'] = mask_gzip_mtime(r_['cgot'])
                         rec[m] = [{'cgot': list(r_['cgot'][:6000]) + [len(r_['cgot'])], 'ceof': r_['ceof'], 'ugot': [], 'events': r_['events']}]
                     cases.append({'kind': 'modes', 't': rec, 'desc': {'script': name, 'tag': tag, 'acceptors': nacc, 'workers': nwork, 'auth': auth,
                                                                       'concurrent_with': len(phase) - 1}})
@@ -318,6 +329,7 @@ def run(chk):
         if c['kind'] == 'modes':
             rep['client_got'] = {mm: bytes(c['t'][mm][0]['cgot'][:-1][:300]).decode('latin1') for mm in c['t']}
             rep['client_eof'] = {mm: c['t'][mm][0]['ceof'] for mm in c['t']}
+            rep['client_got_total_bytes'] = {mm: c['t'][mm][0]['cgot'][-1] for mm in c['t']}
         else:
             rep['events'] = c['events']
         chk.violation(sig, '%s: %s' % (d, clause), rep)
